@@ -6,9 +6,10 @@ import sys, os, json, shutil, re
 
 pid, k = sys.argv[1], sys.argv[2]
 src = sys.argv[sys.argv.index("--src") + 1] if "--src" in sys.argv else "/tmp/seed-%s/_out" % pid
+name = sys.argv[sys.argv.index("--as") + 1] if "--as" in sys.argv else k
 res = {}
 for suffix in ("", "-thorough"):
-    p = "/verif/.cache/seedres/%s-%s%s.json" % (pid, k, suffix)
+    p = "/verif/.cache/seedres/%s-%s%s.json" % (pid, name, suffix)
     if os.path.exists(p):
         res[suffix or "quick"] = json.load(open(p))
 q = res.get("quick") or next(iter(res.values()))
@@ -16,7 +17,7 @@ ok = q.get("demo_passes_without") and q.get("patch_applies") and q.get("demo_fai
 if not ok:
     print("NOT confirmed, not kept:", {x: q.get(x) for x in ("demo_passes_without", "patch_applies", "demo_fails_with", "suite_passes_with")})
     sys.exit(1)
-dst = "/verif/seeded/%s-%s" % (pid, k)
+dst = "/verif/seeded/%s-%s" % (pid, name)
 os.makedirs(dst, exist_ok=True)
 shutil.copy(os.path.join(src, "patch%s.diff" % k), os.path.join(dst, "patch.diff"))
 shutil.copy(os.path.join(src, "demo%s.rs" % k), os.path.join(dst, "demo.rs"))
@@ -32,7 +33,7 @@ def section(rx):
 meta_path = os.path.join(dst, "meta.json")
 meta = json.load(open(meta_path)) if os.path.exists(meta_path) else {}
 meta.update({
-    "id": "%s-%s" % (pid, k),
+    "id": "%s-%s" % (pid, name),
     "breaks_property": pid,
     "origin": "independent sub-agent given only the property text and a scratch worktree of /repo (nothing from /verif)",
     "files_touched": sorted(set(re.findall(r"^\+\+\+ b/(\S+)", open(os.path.join(dst, "patch.diff")).read(), re.M))),
